@@ -45,7 +45,7 @@ CALLS = '@calls'
 RETURN = '@return'
 
 
-def paths(stmts, env=None, pure_calls=(), effects=False, opaque=False):
+def paths(stmts, env=None, pure_calls=(), effects=False, opaque=False, strict_exits=False):
   """[(conds, env, ended)] for every path through `stmts`.  conds: [(test expr in entry terms, polarity)];
   env: location text -> expr in entry terms; ended: 'fall' | 'continue' | 'return' | 'break'."""
   out = []
@@ -114,7 +114,10 @@ def paths(stmts, env=None, pure_calls=(), effects=False, opaque=False):
         continue
       if opaque:
         # a statement the engine does not read: every location it may write is forgotten (a later read of it is a fresh symbol,
-        # written as the location itself), exits inside it are not followed
+        # written as the location itself).  An exit inside it (a return / raise in a loop body) cannot be followed: a caller that
+        # reads *how a path ends* (strict_exits) gets no paths in that case, since what follows the statement may not be reached
+        if strict_exits and any(isinstance(x, (ast.Return, ast.Raise)) for x in ast.walk(st)):
+          raise PathError('an exit inside a statement that is not read path-wise: %s' % norm_text(st)[:50])
         env = dict(env)
         for x in ast.walk(st):
           if isinstance(x, (ast.Name, ast.Attribute, ast.Subscript)) and isinstance(getattr(x, 'ctx', None), (ast.Store, ast.Del)):
